@@ -54,7 +54,9 @@ class Datagroup:
         if self.keys() != other.keys():
             return False
         for key, value in self.items():
-            if all(value != other[key]):
+            equal = value == other[key]
+            components = equal._xyz.values() if hasattr(equal, "_xyz") else [equal]
+            if not all(np.all(c.values) for c in components):
                 return False
         return True
 
